@@ -199,7 +199,7 @@ func visitInstr(fr *frame, instr ssa.Instruction) continuation {
 		// no-op
 
 	case *ssa.UnOp:
-		fr.env[instr] = unop(fr.i, instr, fr.get(instr.X))
+		fr.env[instr] = unop(fr, instr, fr.get(instr.X))
 
 	case *ssa.BinOp:
 		fr.env[instr] = binop(fr.i, instr.Op, instr.X.Type(), fr.get(instr.X), fr.get(instr.Y))
@@ -258,6 +258,7 @@ func visitInstr(fr *frame, instr ssa.Instruction) continuation {
 		if addr == nil {
 			panic(runtimeError("invalid memory address or nil pointer dereference"))
 		}
+		fr.i.x.noteAccess(addr, true, fr)
 		store(mustDeref(instr.Addr.Type()), addr, fr.get(instr.Val))
 
 	case *ssa.If:
@@ -289,7 +290,8 @@ func visitInstr(fr *frame, instr ssa.Instruction) continuation {
 		fn, args := prepareCall(fr, &instr.Call)
 		i := fr.i
 		pos := instr.Pos()
-		i.x.goq = append(i.x.goq, func() { call(i, nil, pos, fn, args) })
+		i.x.goSeq++
+		i.x.goq = append(i.x.goq, pendingGo{id: i.x.goSeq, f: func() { call(i, nil, pos, fn, args) }})
 
 	case *ssa.MakeChan:
 		fr.env[instr] = &symChan{cap: int(asInt64(fr.get(instr.Size)))}
